@@ -621,3 +621,17 @@ def r20_10(run):
 
 
 RULES.append(("R20.10", r20_10))
+
+EXPLANATION += (' ' + '(R20.11, shared with C13 R13.3) pipeflow resets net.converged before anything can raise, so the coupled run -- which derives the verdict of a '
+                'member net from that flag -- never reads the verdict of an earlier calculation.')
+
+
+def r20_11(run):
+    """the coupled run equals the decoupled calculation: run_control_multinet takes the convergence of each member net from
+    net.converged.  pipeflow therefore resets the flag before the connectivity check (which may raise before any solver stage runs);
+    a stale True would let the multinet be reported converged next to NaN results -- shared with C13 R13.3."""
+    from .c13 import r13_3
+    r13_3(run)
+
+
+RULES.append(("R20.11", r20_11))
